@@ -5,8 +5,8 @@ use educe::Educe;
 use core::cmp::Ordering;
 #[derive(Educe)]
 #[educe(Hash)]
-pub enum T { V1, Unit { builder: A<0> }, C, A }
-pub fn values() -> Vec<T> { vec![T::V1, T::Unit { builder: A(0) }, T::Unit { builder: A(1) }, T::Unit { builder: A(7) }, T::C, T::A] }
-pub fn show(x: &T) -> String { #[allow(unused_variables)] match x { T::V1 => format!("V1()"), T::Unit { builder: p0 } => format!("Unit({})", sv(p0)), T::C => format!("C()"), T::A => format!("A()") } }
-pub fn o_hash(x: &T) -> Vec<String> { let mut e = Rec::default(); match x { T::V1 => { ::core::hash::Hash::hash(&0usize, &mut e); }, T::Unit { builder: p0 } => { ::core::hash::Hash::hash(&1usize, &mut e); ::core::hash::Hash::hash(p0, &mut e); }, T::C => { ::core::hash::Hash::hash(&2usize, &mut e); }, T::A => { ::core::hash::Hash::hash(&3usize, &mut e); } } e.0 }
+pub struct T(A<0>, #[educe(Hash = false)] A<0>, #[educe(Hash(ignore = true))] A<0>, #[educe(Hash(method = m_hash))] A<0>);
+pub fn values() -> Vec<T> { vec![T(A(1), A(0), A(7), A(7)), T(A(7), A(1), A(7), A(0)), T(A(7), A(0), A(7), A(1)), T(A(0), A(7), A(0), A(7)), T(A(0), A(7), A(7), A(7)), T(A(1), A(1), A(7), A(0)), T(A(7), A(7), A(7), A(0)), T(A(0), A(0), A(1), A(1)), T(A(0), A(1), A(1), A(1)), T(A(0), A(1), A(0), A(0)), T(A(1), A(0), A(7), A(0)), T(A(1), A(1), A(7), A(1)), T(A(1), A(0), A(1), A(1)), T(A(0), A(1), A(7), A(7)), T(A(0), A(0), A(0), A(7)), T(A(1), A(0), A(1), A(0)), T(A(0), A(0), A(7), A(1)), T(A(0), A(7), A(1), A(1)), T(A(1), A(0), A(0), A(0)), T(A(1), A(0), A(0), A(7)), T(A(0), A(0), A(1), A(0)), T(A(7), A(0), A(0), A(1)), T(A(7), A(1), A(7), A(1)), T(A(7), A(1), A(0), A(7)), T(A(0), A(1), A(0), A(1)), T(A(7), A(7), A(0), A(7)), T(A(1), A(7), A(7), A(7)), T(A(7), A(1), A(0), A(0)), T(A(0), A(0), A(0), A(0)), T(A(1), A(7), A(0), A(0)), T(A(1), A(7), A(1), A(1)), T(A(1), A(7), A(0), A(7)), T(A(0), A(1), A(7), A(1)), T(A(1), A(0), A(1), A(7)), T(A(0), A(0), A(7), A(0)), T(A(7), A(1), A(7), A(7)), T(A(7), A(0), A(0), A(0)), T(A(1), A(1), A(0), A(0)), T(A(0), A(1), A(1), A(0)), T(A(0), A(0), A(0), A(1)), T(A(7), A(1), A(1), A(7)), T(A(0), A(1), A(0), A(7)), T(A(7), A(0), A(7), A(7)), T(A(1), A(1), A(0), A(7)), T(A(1), A(1), A(7), A(7)), T(A(7), A(7), A(0), A(1)), T(A(7), A(1), A(0), A(1)), T(A(7), A(7), A(1), A(1))] }
+pub fn show(x: &T) -> String { #[allow(unused_variables)] match x { T(p0, p1, p2, p3) => format!("T({},{},{},{})", sv(p0), sv(p1), sv(p2), sv(p3)) } }
+pub fn o_hash(x: &T) -> Vec<String> { let mut e = Rec::default(); match x { T(p0, p1, p2, p3) => { ::core::hash::Hash::hash(p0, &mut e); m_hash(p3, &mut e); } } e.0 }
 pub fn run(out: &mut Out) { let vs = values(); for a in &vs { let mut g = Rec::default(); ::core::hash::Hash::hash(a, &mut g); let e = o_hash(a); out.check(g.0 == e, "hash_0", "hash", || format!("hash({}) fed {:?} expected {:?}", show(a), g.0, e)); } }
